@@ -14,7 +14,9 @@
 // is bound to in a `{! ...}` template (bindtext.go); every parenthesis level
 // with implied multiplications next to every operator, after function calls
 // and prefixed operands, against the same formula with an explicit `*`
-// (implied.go).
+// (implied.go); every operator and function over a pool of ~90 values (small
+// integers, 2^k-1/2^k/2^k+1, inexact decimals, huge and tiny magnitudes) with
+// each operand as a constant and as a bound variable (valalpha.go).
 package main
 
 import (
@@ -232,7 +234,7 @@ func danglingPrefix(formula string) bool {
 
 // Case is the replayable description of one check.
 type Case struct {
-	Kind     string             `json:"kind"` // formula | subst | template | bind | implied (Formula: template with @ at each implied position, Dir: style)
+	Kind     string             `json:"kind"` // formula | subst | template | bind | implied (Formula: template with @ at each implied position, Dir: style) | constvar (Formula: pattern with places @1 @2 @3, Texts: the value of each place, Root/Deco: feature for the signature, Dir: which forms)
 	Formula  string             `json:"formula"`
 	Deco     string             `json:"deco,omitempty"`
 	Root     string             `json:"root,omitempty"`
@@ -666,6 +668,10 @@ func worker(w *runner.W) {
 	if part == "all" || part == "implied" {
 		c.implied(&caseNo, w.Quick())
 	}
+	// part 6: value alphabet for the constant-versus-variable sentence
+	if part == "all" || part == "constvar" {
+		c.constvar(&caseNo, w.Quick())
+	}
 }
 
 func inc(idx []int, base int) bool {
@@ -940,6 +946,8 @@ func replay(w *runner.W, raw json.RawMessage) {
 		c.checkBind(cs.Formula, cs.Bind, cs.Texts)
 	case "implied":
 		c.checkImplied(cs.Formula, cs.Dir, cs.Bind, true)
+	case "constvar":
+		c.checkConstVar(cs.Formula, cs.Texts, cvFeature{kind: cs.Root, adj: strings.Split(cs.Deco, ",")}, cvParseOpts(cs.Dir))
 	default:
 		panic("unknown case kind " + cs.Kind)
 	}
@@ -952,12 +960,12 @@ func main() {
 		Level:      "exploration",
 		Rule: func(prop, tier string) string {
 			tp := params(tier != "thorough")
-			return fmt.Sprintf("every binary-operator tree (all shapes) with 0..%d operators over the 17 binary operators {%s}; leaves: all assignments over {%s} for trees with <=%d operators, over {%s} for bigger trees; printed with minimal parentheses (shift/bit operators, whose level the statement does not give, always parenthesised against other groups) with single spaces, and without spaces for undecorated trees with <=%d and decorated trees with <=%d operators; at most one decoration (prefix -, prefix !, function in {%s} (bigger trees than %d operators: the first only), redundant parentheses at every node; implied multiplication at every * node) on all trees with <=%d operators, on trees with <=%d operators whose leaves are in {%s} and on trees with <=%d operators whose leaves are in {%s}; each formula compiled by stdmath.Compile and evaluated under 6 binding vectors (x,[0],y rotate through 0,1,-1,2.5,-3,1e18) against the value of an independent parse; undecorated trees with <=%d operators (decorated: one less) also through `{! f}` and `{! \"f\"}` templates with and without key-builder optimisation; substitution on undecorated trees with <=%d operators, on undecorated trees with <=%d operators over {%s} and <=%d operators over {%s}, on decorated trees with <=%d operators: every constant alone and all together replaced by bound variables, every variable alone and all together replaced by its value per binding vector; every token string with 0..%d tokens over {%s} and %d..%d tokens over {%s} joined by spaces for accept/reject (up to %d tokens also through templates). %s. %s. %s. non-trivial = the formula compiled and a value determined by the statement was compared on at least one binding, or (token strings) a malformed string was rejected, or (binding texts) the template output was compared with the error marker or a value, or (implied-multiplication family) the implied and the explicit form compiled and were compared on at least one binding",
+			return fmt.Sprintf("every binary-operator tree (all shapes) with 0..%d operators over the 17 binary operators {%s}; leaves: all assignments over {%s} for trees with <=%d operators, over {%s} for bigger trees; printed with minimal parentheses (shift/bit operators, whose level the statement does not give, always parenthesised against other groups) with single spaces, and without spaces for undecorated trees with <=%d and decorated trees with <=%d operators; at most one decoration (prefix -, prefix !, function in {%s} (bigger trees than %d operators: the first only), redundant parentheses at every node; implied multiplication at every * node) on all trees with <=%d operators, on trees with <=%d operators whose leaves are in {%s} and on trees with <=%d operators whose leaves are in {%s}; each formula compiled by stdmath.Compile and evaluated under 6 binding vectors (x,[0],y rotate through 0,1,-1,2.5,-3,1e18) against the value of an independent parse; undecorated trees with <=%d operators (decorated: one less) also through `{! f}` and `{! \"f\"}` templates with and without key-builder optimisation; substitution on undecorated trees with <=%d operators, on undecorated trees with <=%d operators over {%s} and <=%d operators over {%s}, on decorated trees with <=%d operators: every constant alone and all together replaced by bound variables, every variable alone and all together replaced by its value per binding vector; every token string with 0..%d tokens over {%s} and %d..%d tokens over {%s} joined by spaces for accept/reject (up to %d tokens also through templates). %s. %s. %s. %s. non-trivial = the formula compiled and a value determined by the statement was compared on at least one binding, or (token strings) a malformed string was rejected, or (binding texts) the template output was compared with the error marker or a value, or (implied-multiplication family) the implied and the explicit form compiled and were compared on at least one binding",
 				tp.maxOps, strings.Join(binOps, " "), poolNames([]int{0, 1, 2, 3, 4, 5, 6, 7}), tp.fullLeavesUpTo, poolNames(tp.reducedLeaves), tp.compactUpTo, tp.compactDecoUpTo, strings.Join(tp.funcs, ","), tp.decoSmallUpTo,
 				tp.decoFullUpTo, tp.decoSmallUpTo, poolNames(tp.smallPool), tp.decoTinyUpTo, poolNames(tp.tinyPool), tp.templateUpTo,
 				tp.substFullUpTo, tp.substSmallUpTo, poolNames(tp.smallPool), tp.substTinyUpTo, poolNames(tp.tinyPool), tp.substFullUpTo-1,
 				tp.tokenLen, strings.Join(tp.tokenAlphabet, " "), tp.tokenLen+1, tp.tokenLenSmall, strings.Join(tp.tokenSmall, " "), tp.tokenTemplate,
-				lexRule(tier != "thorough"), bindRule(tier != "thorough"), impRule(tier != "thorough"))
+				lexRule(tier != "thorough"), bindRule(tier != "thorough"), impRule(tier != "thorough"), cvRule(tier != "thorough"))
 		},
 		Assumptions: func(string) []string {
 			return []string{
@@ -967,7 +975,8 @@ func main() {
 				"implied multiplication a(b) is the multiplication a*(b): the statement lists it among the formula features and gives one level for multiplication (* / %, equal levels left to right), docs/usage/math.md gives `2(1+1) => 4`; the formula with the juxtaposition must therefore equal the formula with an explicit * at that place (differential oracle, also next to << >> & | whose level is not given), and the independent parse reads a/b(c) as a/b*(c)",
 				"integer operators on non-integers, values outside int64, a modulus <= 0, a negative dividend, shift counts outside 0..62, overflowing shifts, and NaN as a truth value have no value fixed by the statement: only 'no crash' is demanded there",
 				"stacked prefix operators, unary plus, adjacent operands without operator, a function name without a group are neither demanded to compile nor to be rejected",
-				"numeric comparison is NaN-aware (NaN equals NaN) and treats -0 and 0 as equal",
+				"numeric comparison is NaN-aware (NaN equals NaN) and treats -0 and 0 as equal; the value-alphabet family compares two forms of the SAME formula (a constant against a variable bound to the same decimal text) and demands the identical float64 bit pattern (any NaN equals any NaN; -0 and 0 differ: they print as -0 and 0) and the identical printed text",
+				"value-alphabet family: a pool value is one plain decimal text that is the exact shortest rendering of its float64, so the constant (read by the formula compiler) and the binding (read from match data) denote the same float64 under any correctly rounding reader; a negative constant is written in parentheses; (c + 0) and (1 * c) count as spellings of the constant c (the first sentence gives them the value c, and compile-time simplification is to be invisible)",
 				"literal spellings that neither the statement nor docs/usage/math.md give (upper-case 0X/0B prefix, leading or trailing dot, unsigned exponent 1e3) may be rejected; when accepted they must have their usual value. A signed exponent (1e-3) is not a literal: unspecified",
 				"spellings of unsettled reading as formula tokens (inf/infinity/nan in any letter case, hexadecimal floats, digit separators, exponents, values beyond float64 ...): a compile error, the IEEE constant and a look-up of a variable of that name are each allowed as such; what is demanded is only the constant-vs-variable sentence: when the tree reads the text as a number when a variable is bound to it (so the text is a 'numeric value' by the tree's own account, and docs/usage/math.md makes only non-numeric values variables) AND compiles the formula with the text as a token, both formulas give the same number; no variable of that name is bound. Integers with a redundant leading zero (017: decimal 17 or octal 15) are exempt",
 				"binding texts: a plain decimal text (-?digits[.digits], no redundant leading zero) must be read as the float64 nearest to its decimal value (1 ulp tolerated; reference computed with math/big) and must equal the same text written as a constant; for a leading +, redundant leading zeros, leading/trailing dot, exponent, surrounding blanks, 0x/0b/0o prefix, hexadecimal floats (0x1p4), digit separators, inf/infinity/nan and values beyond float64 both the documented error marker <BAD-TYPE> and the natural value are accepted; any other text must give the error marker (anchor: binding 'with error counting'), never a number",
